@@ -400,7 +400,31 @@ pub fn type_parts(t: &crate::Type) -> Result<Vec<(String, i128, i128)>, String> 
             .iter()
             .map(|crate::BaseRepresentationFactor(n, e)| (n.to_string(), *e.numer(), *e.denom()))
             .collect()),
-        other => Err(other.to_string()),
+        other => Err(type_text(other)),
+    }
+}
+
+/// Panic-free textual description of a type (Display is not defined for quantified variables)
+pub fn type_text(t: &crate::Type) -> String {
+    match t {
+        crate::Type::TVar(_) => "?".to_string(),
+        crate::Type::TPar(name) => name.to_string(),
+        crate::Type::Dimension(d) => d
+            .to_base_representation()
+            .iter()
+            .map(|crate::BaseRepresentationFactor(n, e)| format!("{n}^{e}"))
+            .collect::<Vec<_>>()
+            .join("*"),
+        crate::Type::Boolean => "Bool".to_string(),
+        crate::Type::String => "String".to_string(),
+        crate::Type::DateTime => "DateTime".to_string(),
+        crate::Type::Fn(ps, r) => format!(
+            "Fn[({}) -> {}]",
+            ps.iter().map(type_text).collect::<Vec<_>>().join(", "),
+            type_text(r)
+        ),
+        crate::Type::Struct(info) => info.name.to_string(),
+        crate::Type::List(e) => format!("List<{}>", type_text(e)),
     }
 }
 
@@ -416,4 +440,17 @@ pub fn dimension_base_repr(ctx: &Context, name: &str) -> Option<Vec<(String, i12
                 })
                 .collect()
         })
+}
+
+/// The tokenizer's view of `code`: (token kind, lexeme) for every token except the final Eof,
+/// or the tokenizer's error message. (C10: spelling table and number-literal automaton.)
+pub fn token_kinds(code: &str) -> Result<Vec<(String, String)>, String> {
+    match crate::tokenizer::tokenize(code, 0) {
+        Ok(tokens) => Ok(tokens
+            .iter()
+            .filter(|t| t.kind != crate::tokenizer::TokenKind::Eof)
+            .map(|t| (format!("{:?}", t.kind), t.lexeme.to_string()))
+            .collect()),
+        Err(e) => Err(e.to_string()),
+    }
 }
